@@ -82,6 +82,8 @@ MoreFaults ==
    Fault("string argument for an int parameter", <<TId("Id"), TBr("("), TId("S"), TBr(")")>>, 1, NNil),
    Fault("float member for an int parameter", <<TId("Id"), TBr("("), TId("F"), TBr(")")>>, 1, NNil),
    Fault("string concatenation for an int parameter", <<TId("Id"), TBr("("), TId("S"), TOp("+"), TId("S"), TBr(")")>>, 1, NNil),
+   Fault("modulo of literals for an int8 parameter", <<TId("I8Id"), TBr("("), TNum("10"), TOp("%"), TNum("3"), TBr(")")>>, 1, NNil),
+   Fault("negated modulo of literals for an int8 parameter", <<TId("I8Id"), TBr("("), TOp("-"), TBr("("), TNum("10"), TOp("%"), TNum("3"), TBr(")"), TBr(")")>>, 1, NNil),
    Fault("float arithmetic for an int parameter", <<TId("Id"), TBr("("), TId("F"), TOp("-"), TId("G"), TBr(")")>>, 1, NNil),
    Fault("integer arithmetic for a string parameter", <<TId("Cat"), TBr("("), TNum("1"), TOp("+"), TNum("2"), TOp(","), TId("S"), TBr(")")>>, 1, NNil),
    Fault("non-boolean condition", <<TBr("("), TNum("1"), TOp("?"), TNum("2"), TOp(":"), TNum("3"), TBr(")")>>, 1, NNil),
